@@ -145,12 +145,15 @@ class Enc:
         self.monos_of = {}      # atom -> sorted tuple of base atoms whose product it is known to equal in F_p
         self.monoatom = {}      # multiset (sorted tuple) -> canonical atom
         self.used_as_base = set()
+        self.srange = {}        # atom -> (lo, hi): statically known range of the centred representative (lo < 0)
+        self.sexpr = {}         # atom -> SMT integer expression equal to that centred representative
         self.dropped_rows = []  # linear rows replaced by their composed chain equation
         self.dropped_atoms = set()   # private remainder cells eliminated with them (recomputed for models)
         self.linrow_lines = {}  # row index -> (start, end) range of self.lines it emitted
         self.occ = {}           # atom -> number of constraints (gates, lookup inputs) mentioning it
         self.skip_gate = None   # predicate(gate dict) -> True: leave this gate row to a specialised engine
         self.skipped = []
+        self.runtime_exact = os.environ.get("VERIF_RUNTIME_EXACT", "0") == "1"   # nonlinear small-operand lemma (off: invites NIA)
         self.opaque_products = False   # exact-small products: state only their range (monomial mode for
                                        # limb arithmetic; the defining equation is re-checked exactly on models)
         self.side = []          # closed formulas (own declarations, body) that must be VALID: lemmas the
@@ -194,6 +197,8 @@ class Enc:
         stored mod p)."""
         if isinstance(a, int):
             return I(sym(a, self.P))
+        if a in self.sexpr:
+            return self.sexpr[a]
         if self.ub.get(a, self.P) < self.P // 2:
             return a
         return f"(ite (< {a} {self.P // 2 + 1}) {a} (- {a} {self.P}))"
@@ -389,8 +394,9 @@ class Enc:
                 # squares: x^2 = 1 => x = +-1
                 L.append(f"(assert (=> (= {t} 1) (or (= {a} 1) (= {a} {P - 1}))))")
             # small-exact (runtime values)
-            Bs = 1 << 120
-            L.append(f"(assert (=> (and (< {a} {Bs}) (< {b} {Bs})) (= {t} (* {a} {b}))))")
+            if self.runtime_exact:
+                Bs = 1 << 120
+                L.append(f"(assert (=> (and (< {a} {Bs}) (< {b} {Bs})) (= {t} (* {a} {b}))))")
             # cancellation / functional consistency with previous products sharing a factor
             for (t2, k1, k2) in self.prod_list:
                 for (x, y), (x2, y2) in (((a, b), (k1, k2)), ((a, b), (k2, k1)), ((b, a), (k1, k2)), ((b, a), (k2, k1))):
@@ -685,6 +691,7 @@ class Enc:
         for g in rest:
             self.constraint(g["poly"], monomial_mode)
         self.flat_lemmas()
+        self.iszero_lemmas([g["poly"] for g in rest])
         self.encoded = True
 
     def boolean_row(self, terms, const):
@@ -744,7 +751,7 @@ class Enc:
                 for k, a, b in quad:
                     inq.add(a)
                     inq.add(b)
-                unb = [a for a in lin if self.bound(a) >= P]
+                unb = [a for a in lin if self.bound(a) >= P and a not in self.srange]
                 if len(unb) != 1 or lin[unb[0]] not in (1, -1) or unb[0] in inq:
                     continue
                 if any(self.bound(a) >= P for a in inq):
@@ -755,11 +762,23 @@ class Enc:
                 for a, c in lin.items():
                     if a == u:
                         continue
-                    v = -cu * c * (self.bound(a) - 1)
-                    lo, hi = lo + min(0, v), hi + max(0, v)
+                    alo, ahi = self.srange.get(a, (0, self.bound(a) - 1))
+                    v1, v2 = -cu * c * alo, -cu * c * ahi
+                    lo, hi = lo + min(v1, v2), hi + max(v1, v2)
                 for k, a, b in quad:
                     v = -cu * k * (self.bound(a) - 1) * (self.bound(b) - 1)
                     lo, hi = lo + min(0, v), hi + max(0, v)
+                if lo < 0 and not quad and max(-lo, hi) < P // 8:
+                    # small signed value stored mod p (limb of an un-normalised emulated element, a
+                    # difference, ...): u == E (mod p) with |E| < p/8, so the centred representative of u
+                    # is exactly E
+                    parts = [I(-cu * const)] + [f"(* {I(-cu * c)} {self.sexpr.get(a, a)})" for a, c in lin.items() if a != u]
+                    E = "(+ " + " ".join(parts) + ")"
+                    self.srange[u] = (lo, hi)
+                    self.sexpr[u] = E
+                    self.lines.append(f"(assert (= {u} (ite (>= {E} 0) {E} (+ {E} {P}))))")
+                    changed = True
+                    continue
                 if lo >= 0 and hi < min(P, 1 << 250):
                     if hi + 1 < self.bound(u):
                         self.set_bound(u, hi + 1)
@@ -809,6 +828,66 @@ class Enc:
         self.lines.append(f"(assert (= {S} {self.lin_smt(terms, ints)}))")
         self._sums[key] = S
         return S
+
+    def iszero_lemmas(self, polys):
+        """The is-zero / is-equal gadget: rows  a*L = 1 - r  and  L*r = 0  (L a linear form, a an inverse
+        hint, r the result) imply r = [L = 0] in any field (no zero divisors), whatever a is; the variant
+        a*L = r, L*(1 - r) = 0 implies r = [L != 0]. The derived fact is stated directly next to the rows
+        (which are kept): it is a consequence of exactly those two rows, detected syntactically."""
+        P = self.P
+
+        def factor(poly):
+            """all (v, L, rest) with poly = v*L + rest, L and rest free of v and linear"""
+            const, lin, quad, high = self.split_poly(poly)
+            if high or not quad:
+                return []
+            out = []
+            cands = set(a for _, a, b in quad) | set(b for _, a, b in quad)
+            for v in cands:
+                if any(v not in (a, b) or a == b for _, a, b in quad):
+                    continue
+                L = {}
+                for k, a, b in quad:
+                    o = b if a == v else a
+                    L[o] = (L.get(o, 0) + k) % P
+                Lc = lin.get(v, 0) % P
+                rest = {a: c % P for a, c in lin.items() if a != v and c % P}
+                if v in L:
+                    continue
+                out.append((v, (tuple(sorted((a, c) for a, c in L.items() if c)), Lc), (tuple(sorted(rest.items())), const % P)))
+            return out
+
+        def neg(Lf):
+            return (tuple(sorted((a, (-c) % P) for a, c in Lf[0])), (-Lf[1]) % P)
+        facts = [f for poly in polys for f in factor(poly)]
+        done = set()
+        for (a, L1, rest1) in facts:
+            for (r, L2, rest2) in facts:
+                if a == r:
+                    continue
+                kind = None
+                # a*L + r - 1 = 0  and  r*L' = 0 with L' = +-L   =>  r = [L = 0]
+                if rest1 == (((r, 1),), P - 1) and rest2 == ((), 0) and (L2 == L1 or L2 == neg(L1)):
+                    kind = "eq"
+                # -(a*L) ... handle the negated first row: -a*L - r + 1 = 0
+                elif rest1 == (((r, P - 1),), 1) and rest2 == ((), 0) and (L2 == L1 or L2 == neg(L1)):
+                    kind = "eq"
+                # a*L - r = 0  and  L - r*L = 0  =>  r = [L != 0]
+                elif rest1 in ((((r, P - 1),), 0), (((r, 1),), 0)):
+                    # second row: r*L2 + rest2 with rest2 == -L2 (as a linear form)
+                    lin2 = dict(rest2[0])
+                    if (tuple(sorted(((x, (-c) % P) for x, c in L2[0]))), (-L2[1]) % P) == (tuple(sorted(lin2.items())), rest2[1]) and (L2 == L1 or L2 == neg(L1)):
+                        kind = "neq"
+                if kind and (r, kind) not in done:
+                    done.add((r, kind))
+                    Lv = self.define_mod([(c, x) for x, c in L1[0]], L1[1])
+                    Lz = f"(= {Lv} 0)" if not isinstance(Lv, int) else ("true" if Lv % P == 0 else "false")
+                    if kind == "eq":
+                        self.lines.append(f"(assert (= {r} (ite {Lz} 1 0)))")
+                    else:
+                        self.lines.append(f"(assert (= {r} (ite {Lz} 0 1)))")
+                    self.set_bound(r, 2)
+                    self.bool_atoms.add(r)
 
     def flat_lemmas(self):
         """Running-remainder chains (x = d0 + 2 d1 + ... + y1, y1 = 16 d4 + ... + y2, ...) are linear rows
